@@ -17,7 +17,7 @@ ASSUMPTIONS = {
     "C20": ["a 2-state reference automaton (which half is due) decides legality of each call"],
 }
 REQUIRED = {
-    "C06": ["steps_compared", "single_word_cases", "program_cases", "self_modified_executed", "brz_taken", "opcode_alias_executed", "pc_wrap_steps"],
+    "C06": ["steps_compared", "single_word_cases", "program_cases", "self_modified_executed", "brz_taken", "opcode_alias_executed", "pc_wrap_steps", "selfmod_last_reexecuted", "selfmod_body_reexecuted", "loads_into_reused_simulation"],
     "C19": ["words_round_tripped", "sources_compared", "label_refs", "array_vars", "doc_examples"],
     "C20": ["boundary_snapshots_compared", "illegal_calls_checked", "calls_after_done", "first_halves", "second_halves", "single_steps"],
 }
@@ -84,21 +84,33 @@ def compare(sim, ref, res, case, where):
     return True
 
 
-def setup(case):
-    """case: text (assembled prefix), pokes {addr: word}, acc"""
+def setup(case, sim=None):
+    """case: text (assembled prefix), pokes {addr: word}, acc; optional w0/L = first word and length of the
+    assembled prefix (then the reference image is computed from the case, not read back from the simulator).
+    sim: an already used ToySimulation to load into (re-use of one simulation object, as the web UI does)."""
     from fixedint import UInt16
 
-    sim = new_sim(case["text"])
+    if sim is None:
+        sim = new_sim(case["text"])
+    else:
+        sim.load_program(case["text"])
     for a, v in case["pokes"].items():
         poke(sim, int(a), v)
     sim.state.accu = UInt16(case["acc"])
-    mem = {a: int(v) for a, v in sim.state.memory.memory_file.items()}
-    ref = RefToy(mem, sim.state.max_pc, case["acc"])
+    if "w0" in case:
+        mem = {0: case["w0"]}
+        mem.update({i: 0xC000 for i in range(1, case["L"])})
+        mem.update({int(a): v for a, v in case["pokes"].items()})
+        maxpc = case["L"] - 1
+    else:
+        mem = {a: int(v) for a, v in sim.state.memory.memory_file.items()}
+        maxpc = sim.state.max_pc
+    ref = RefToy(mem, maxpc, case["acc"])
     return sim, ref
 
 
-def run_exec_case(case, res):
-    sim, ref = setup(case)
+def run_exec_case(case, res, sim=None):
+    sim, ref = setup(case, sim)
     if not compare(sim, ref, res, case, "after load"):
         return
     steps = 0
@@ -139,7 +151,54 @@ def gen_prog_case(rng):
     pokes = {str(i): w for i, w in enumerate(words) if i}
     for a in (4095, 4094, L, L + 1):
         pokes[str(a)] = rng.choice([0, 1, 0xFFFF, 0x8000, rng.getrandbits(16), (0 << 12) | rng.randrange(L)])
-    return {"kind": "exec", "text": text, "pokes": pokes, "acc": rng.choice([0, 0, 1, 0xFFFF, 0x8000, rng.getrandbits(16)]), "max_steps": 120}
+    return {"kind": "exec", "text": text, "pokes": pokes, "acc": rng.choice([0, 0, 1, 0xFFFF, 0x8000, rng.getrandbits(16)]), "max_steps": 120, "w0": words[0], "L": L}
+
+
+def _filler(rng, cells):
+    """non-control word that does not store into the program: address-type ops on data cells, or accumulator ops"""
+    op = rng.choice([1, 3, 4, 5, 6, 7, 8, 9, 10, 11, 12, 13, 14, 15])
+    return (op << 12) | (rng.choice(cells) if op < 8 else rng.choice([0, 0, rng.randrange(4096)]))
+
+
+def gen_selfmod_case(rng):
+    """two-pass program: an instruction T executes in pass 1, is overwritten by a STO in pass 2 and then executes
+    again (T = the LAST instruction - the loop's back edge - or an instruction inside the loop body)."""
+    nb = rng.randint(0, 5)
+    last = rng.random() < 0.5
+    cells = None
+    # layout: 0 LDA F | 1 BRZ 4 | 2 LDA W | 3 STO T | 4.. body | tail
+    body_at = 4
+    if last:
+        tail = ["LDA_ONE", "STO_F", "ZRO", "BRZ0"]
+    else:
+        tail = ["LDA_F", "BRZ_SET", "ZRO", "BRZ_END", "LDA_ONE", "STO_F", "ZRO", "BRZ0"]
+    L = body_at + nb + len(tail)
+    F, W, ONE = L + 1, L + 2, L + 3
+    cells = [L + 4, L + 5, 4094, 4095]
+    body = [_filler(rng, cells) for _ in range(nb)]
+    if last or nb == 0:
+        T = L - 1
+        last = True
+        if tail[0] != "LDA_ONE":
+            tail = ["LDA_ONE", "STO_F", "ZRO", "BRZ0"]
+            L = body_at + nb + len(tail)
+            F, W, ONE = L + 1, L + 2, L + 3
+            T = L - 1
+    else:
+        T = body_at + rng.randrange(nb)
+    set_at = body_at + nb + 4
+    enc = {"LDA_F": (1 << 12) | F, "BRZ_SET": (2 << 12) | set_at, "ZRO": 11 << 12, "BRZ_END": (2 << 12) | rng.choice([4095, L, L + 7]), "LDA_ONE": (1 << 12) | ONE, "STO_F": (0 << 12) | F, "BRZ0": (2 << 12) | 0}
+    words = [(1 << 12) | F, (2 << 12) | 4, (1 << 12) | W, (0 << 12) | T] + body + [enc[t] for t in tail]
+    assert len(words) == L
+    neww = _filler(rng, cells) if rng.random() < 0.8 else rng.getrandbits(16)
+    if neww == words[T]:
+        neww ^= 0x1000
+    pokes = {str(i): w for i, w in enumerate(words) if i}
+    pokes.update({str(F): 0, str(W): neww, str(ONE): 1})
+    for c in cells:
+        pokes[str(c)] = rng.choice([0, 1, 0xFFFF, rng.getrandbits(16)])
+    text = "\n".join([word_text(words[0])] + ["NOP"] * (L - 1))
+    return {"kind": "exec", "text": text, "pokes": pokes, "acc": rng.choice([0, 1, rng.getrandbits(16)]), "max_steps": 150, "w0": words[0], "L": L, "selfmod": "last" if last else "body"}
 
 
 ACCS = [0, 1, 0x7FFF, 0x8000, 0xFFFF]
@@ -436,10 +495,12 @@ def gen_calls(rng, n):
 # ------------------------------------------------------------------------------------------ driver
 
 
-def run_case(prop, case, res):
+def run_case(prop, case, res, sim=None):
     k = case["kind"]
     if k == "exec":
-        ref = run_exec_case(case, res)
+        ref = run_exec_case(case, res, sim)
+        if ref is not None and case.get("selfmod"):
+            res.count("selfmod_%s_reexecuted" % case["selfmod"], 1 if ref.executed_overwritten else 0)
         if ref is not None and (ref.executed_overwritten or case.get("single_word")):
             res.nontrivial(h64(case))
     elif k == "asm":
@@ -457,6 +518,9 @@ def run_shard(spec, res):
     rng = rng_for(prop, spec["tier"], spec["seed"], spec["kind"], spec["shard"])
     k = spec["kind"]
     if k == "words":
+        from architecture_simulator.simulation.toy_simulation import ToySimulation
+
+        reused = ToySimulation()
         for w in range(spec["lo"], spec["hi"]):
             for c in range(spec["combos"]):
                 acc = ACCS[(w + c) % 5] if c < 5 else rng.getrandbits(16)
@@ -465,17 +529,32 @@ def run_shard(spec, res):
                 a = w & 0xFFF
                 if a not in (0, 1):
                     pokes[str(a)] = cell
-                case = {"kind": "exec", "text": "NOP\nNOP", "pokes": pokes, "acc": acc, "max_steps": 6, "single_word": (w >> 12) != 12}
-                guarded(run_case, prop, case, res)
+                case = {"kind": "exec", "text": "NOP\nNOP", "pokes": pokes, "acc": acc, "max_steps": 6, "single_word": (w >> 12) != 12, "w0": 0xC000, "L": 2}
+                # every 3rd word runs on ONE re-used simulation object (load_program again and again, as the web UI does)
+                if w % 3 == 0:
+                    res.count("loads_into_reused_simulation")
+                    guarded(lambda p, c, r: run_case(p, c, r, reused), prop, case, res)
+                else:
+                    guarded(run_case, prop, case, res)
                 res.evaluations += 1
                 res.count("single_word_cases")
         res.exhaustive = True
         res.extra["exhaustive_space"] = "every 16-bit word as the second instruction x %d accumulator/operand combination(s)" % spec["combos"]
         res.sample({"kind": "exec", "text": "NOP\\nNOP", "pokes": {"1": spec["lo"] + 7}, "note": "one of 4096 words of this shard"}, 1)
     elif k == "progs":
+        from architecture_simulator.simulation.toy_simulation import ToySimulation
+
+        reused = ToySimulation()
         for it in range(spec["n"]):
-            case = gen_prog_case(rng)
-            guarded(run_case, prop, case, res)
+            case = gen_selfmod_case(rng) if rng.random() < 0.3 else gen_prog_case(rng)
+            if it % 4 == 0:
+                guarded(run_case, prop, case, res)
+            else:
+                # re-used simulation object; the same text is loaded several times in a row with different pokes
+                for rep in range(rng.choice([1, 1, 3])):
+                    c2 = dict(case, acc=(case["acc"] + rep) & 0xFFFF)
+                    res.count("loads_into_reused_simulation")
+                    guarded(lambda p, c, r: run_case(p, c, r, reused), prop, c2, res)
             res.evaluations += 1
             res.count("program_cases")
             if it < 1:
@@ -500,7 +579,7 @@ def run_shard(spec, res):
                 res.sample(case, 3)
     elif k == "halves":
         for it in range(spec["n"]):
-            case = gen_prog_case(rng)
+            case = gen_selfmod_case(rng) if rng.random() < 0.2 else gen_prog_case(rng)
             case["kind"] = "halves"
             case["calls"] = gen_calls(rng, rng.randint(4, 60))
             guarded(run_case, prop, case, res)
